@@ -5,6 +5,7 @@ import re
 
 import h11
 
+from twisted.internet.abstract import FileDescriptor
 from twisted.internet.defer import Deferred
 from twisted.internet.testing import StringTransport
 from twisted.web._newclient import BadHeaders, ExcessWrite, Request, WrongBodyLength
@@ -15,18 +16,30 @@ from twisted.logger import Logger
 # "Producer is buggy" / "Buggy state machine" reports of combine() are logged, not raised; keep them off stderr
 Request._log = Logger(namespace="twisted.web._newclient.Request", observer=lambda event: None)
 
-HEADLINE = "TwistedProps.C24.serialises_to_one_request_chunked / _known_length / _no_body / invalid_method_or_target_refused_before_any_write"
-RULE = ("requests from a grammar: method (RFC tokens incl. every tchar class; invalid: empty, SP, CR/LF, each delimiter, "
-        "DEL, NUL, 8-bit), target (VCHAR strings; invalid: empty, SP, HTAB, CR/LF, NUL, DEL, 8-bit), optional overwrite of "
-        ".method/.uri after construction, header sets through the real Headers class (Host once / missing / twice / empty "
-        "list, mixed-case names, valid and hostile values: CR/LF, NUL, VT, DEL, leading/trailing blanks, obs-text, framing "
-        "fields), persistent or not, body absent / UNKNOWN_LENGTH / known length with a scripted producer (writes of 0,1,"
-        "9,10,15,16,17,255,256,4095,4096,65536 bytes incl. CRLF and '0\\r\\n\\r\\n' payloads, startProducing returning "
-        "anywhere in the script, Deferred fired before or after it returns, success / failure / never, too many / too few "
-        "bytes, writes after the end); distinct = (refusal class, body kind, outcome, sync/async finish, empty write?, "
-        "write-size classes (empty / <16 / <4096 / larger), header value classes, persistent, parse class)")
+HEADLINE = "TwistedProps.C24.serialises_to_one_request_chunked / _known_length / _no_body / invalid_method_or_target_refused_before_any_write / invalid_refused_whatever_the_history"
+RULE = ("requests from a grammar: method (RFC tokens incl. every tchar class, the whole IANA method registry, case variants "
+        "of PUT/POST/..., random tokens up to 256 bytes; invalid: empty, and ONE disallowed byte or a CRLF injection at the "
+        "start / inside / end of any valid method), target (origin, absolute, authority and asterisk form, odd VCHAR strings, "
+        "random VCHAR strings, lengths up to 8193; invalid: the same injection into any of them); a deterministic sweep puts "
+        "EVERY disallowed byte value at three positions of rotating valid methods and targets, once in the constructor and "
+        "once assigned to .method/.uri afterwards; header sets through the real Headers class (Host once / missing / twice "
+        "/ empty list, mixed-case names, registered field names incl. hop-by-hop / Expect / Upgrade / TE / Trailer, random "
+        "token names, repeated equal values, values up to 8193 bytes, valid and hostile values: CR/LF, NUL, VT, DEL, "
+        "leading/trailing blanks, obs-text, framing fields); persistent True / False / argument left out; Request(...) or "
+        "Request._construct(...); transport = StringTransport or the real abstract.FileDescriptor over a sink; optionally "
+        "the Request object has an earlier life (built with other headers / persistent, .method/.uri assigned valid or "
+        "invalid values, written once or twice to other transports with or without a body, then headers replaced or "
+        "changed in place and every attribute set to its final value); body absent / UNKNOWN_LENGTH / known length with a "
+        "scripted producer (writes of 0,1,9,10,15,16,17,255,256,4095,4096 bytes, 2^k-1 / 2^k / 2^k+1 for k=13..17 "
+        "(deterministically, one chunked and one known-length body each; in the quick tier those above 32 KiB + 1 are "
+        "oracle-only and 128 KiB is thorough-only) and log-uniform sizes up to 128 KiB with position-identifying content, "
+        "runs of up to 100 small writes, CRLF and '0\\r\\n\\r\\n' payloads, startProducing returning anywhere in the "
+        "script, Deferred fired before or after it returns, success / failure / never, too many / too few bytes, writes "
+        "after the end); distinct = (refusal class, body kind, outcome, sync/async finish, empty write?, write-size "
+        "classes, header value classes, persistent / default, transport, constructor, rewritten?, parse class)")
 ASSUMES = [
-    "the transport is a fresh StringTransport (no producer registered before writeTo; write/writeSequence append)",
+    "the transport is fresh (no producer registered before writeTo) and is a StringTransport or abstract.FileDescriptor "
+    "(the base class of the socket transports; its buffer is drained at the end)",
     "header sets are Headers objects (names canonicalised and values passed through _sanitizeLinearWhitespace by that class, "
     "which is outside the model); 'valid header set' = exactly one Host value, field values of field-vchar/SP/HTAB without "
     "leading or trailing blanks, and no Content-Length / Transfer-Encoding field supplied by the caller (the Request writes "
@@ -34,22 +47,30 @@ ASSUMES = [
     "a body producer is a script of consumer.write calls and at most one firing of the Deferred it returned; a valid body of "
     "known length L writes exactly L bytes and then succeeds; bodyProducer.length is UNKNOWN_LENGTH or a non-negative int",
     "stopProducing() of the producer returns normally",
+    "the model's Request is its four attributes (method, uri, headers, persistent): a case with an earlier life of the object "
+    "is compared with the model run on the final attribute values (TwistedProps.C24.written_bytes_depend_on_current_"
+    "attributes_only), i.e. the tie checks that the implementation keeps no other state",
 ]
 TRUSTED = ["h11 0.16 as the independent HTTP/1.1 reader on the implementation side (plus a strictness filter: field values "
            "outside field-vchar/SP/HTAB count as malformed, as in RFC 9110 §5.5)",
-           "twisted.web.http_headers.Headers (used to build the header store handed to both sides)"]
+           "twisted.web.http_headers.Headers (used to build the header store handed to both sides)",
+           "twisted.internet.abstract.FileDescriptor as the second transport"]
 MANIFEST = {
     "text": "Lean theorems (TwistedProps/C24.lean) for every valid method token, request-target, header store and body script: "
             "the bytes written by the model of Request.writeTo are read by an RFC 9112 reference parser (written from the "
             "grammar, in Lean) as exactly one request with that method, target, field lines and body, framed by Content-Length "
             "(known length, PUT/POST without body) or chunked coding (unknown length), for all write sizes and for "
-            "startProducing returning before or after the producer finishes; an invalid method or target (at construction or "
-            "assigned later) is refused with nothing written. Model tied to _newclient.py by differential runs on a "
-            "StringTransport; the real bytes are additionally read with h11.",
+            "startProducing returning before or after the producer finishes; an invalid method or target (at construction, "
+            "assigned later, or on a request object that was assigned to and written any number of times before) is refused "
+            "with nothing written. Model tied to _newclient.py by differential runs on a StringTransport and on the real "
+            "FileDescriptor transport base class, through both constructors, with fresh and re-used request objects; the "
+            "real bytes are additionally read with h11.",
     "note": "trusts Lean kernel, the hand-written model of Request/ChunkedEncoder/LengthEnforcingConsumer (differentially tied), "
-            "h11 as second reader, Headers for name canonicalisation / value sanitising",
+            "h11 as second reader, Headers for name canonicalisation / value sanitising; the largest bodies (sweep sizes above "
+            "32 KiB + 1, random bodies above 70 kB) are model-compared in the thorough tier only (oracle-only in the quick tier)",
     "technique": "Lean 4 proof (writer model + reference parser, round-trip by induction over header lines and chunks, "
-                 "decimal/hex numeral round-trip) + differential tie + h11 oracle",
+                 "decimal/hex numeral round-trip) + differential tie + h11 oracle; white-box mutation audit "
+                 "(harness/mutants/C24)",
     "design_ref": "DESIGN.md §7 C24",
 }
 
@@ -116,9 +137,44 @@ class ScriptedProducer:
         pass
 
 
-def _headers(c):
-    h = Headers()
-    for how, name, vals in c["h"]:
+class _NoReactor:
+    def addWriter(self, w):
+        pass
+
+    def removeWriter(self, w):
+        pass
+
+    addReader = removeReader = addWriter
+
+
+class FDTransport(FileDescriptor):
+    """Twisted's own buffering transport base class (abstract.FileDescriptor: the write / writeSequence / producer code of
+    every socket transport) over a sink instead of a socket.  Unlike StringTransport its writeSequence walks its argument
+    more than once and checks every element, so a one-shot iterable or a non-bytes element handed to it loses the data."""
+
+    def __init__(self):
+        FileDescriptor.__init__(self, _NoReactor())
+        self.connected = 1
+        self._sink = []
+
+    def writeSomeData(self, data):
+        self._sink.append(bytes(data))
+        return len(data)
+
+    def value(self):
+        for _ in range(100000):
+            if not (len(self.dataBuffer) - self.offset or self._tempDataBuffer):
+                break
+            self.doWrite()
+        return b"".join(self._sink)
+
+
+def _transport(kind):
+    return FDTransport() if kind == "fd" else StringTransport()
+
+
+def _apply_headers(h, spec):
+    for how, name, vals in spec:
         if how == "set":
             h.setRawHeaders(unhx(name), [unhx(v) for v in vals])
         else:
@@ -127,17 +183,23 @@ def _headers(c):
     return h
 
 
+def _headers(c):
+    return _apply_headers(Headers(), c["h"])
+
+
 def stored(c):
     return [(n, list(vs)) for n, vs in _headers(c).getAllRawHeaders()]
 
 
 def model_line(c):
+    if c.get("oo"):      # oracle-only: bodies too large for the quick tier's model budget (the thorough tier model-compares them)
+        return None
     st = stored(c)
     hs = ";".join(hx(n) + ":" + (",".join(hx(v) for v in vs) if vs else "~") for n, vs in st) if st else "~"
     b = "none" if c["b"] is None else "u" if c["b"] == "u" else str(c["b"])
     sc = ",".join("w" + hx(unhx(e[1])) if e[0] == "w" else e[0] for e in c["s"]) if c["s"] else "~"
     return " ".join(["req", c["m"], c["u"], c["m2"] if c["m2"] is not None else "~",
-                     c["u2"] if c["u2"] is not None else "~", "1" if c["p"] else "0", hs, b, sc])
+                     c["u2"] if c["u2"] is not None else "~", "1" if c["p"] else "0", hs, b, sc])   # p None: argument left out (= False)
 
 
 def h11_parse(data):
@@ -174,7 +236,8 @@ def h11_parse(data):
         return "bad"
     if not done:
         return "bad" if err else "incomplete"
-    if err or more or conn.trailing_data[0]:
+    # (h11 also pauses after a complete CONNECT / Upgrade request with nothing left over: that is not "trailing")
+    if err or conn.trailing_data[0]:
         return "trailing"
     names = [n for n, _ in hs]
     if b"transfer-encoding" in names:
@@ -191,12 +254,54 @@ def _has_framing(c):
     return any(n.lower() in FRAMING for n, _ in stored(c))
 
 
+def _make(c, method, uri, headers, prod, persistent):
+    """Request(...) or Request._construct(...) (the constructor twisted.web.client.Agent uses); persistent None = left out."""
+    kw = {} if persistent is None else {"persistent": persistent}
+    if c.get("ctor", "init") == "construct":
+        return Request._construct(method, uri, headers, prod, **kw)
+    return Request(method, uri, headers, prod, **kw)
+
+
+def _prelude(c, r, pre):
+    """An earlier life of the same Request object: written once or twice to other transports (as the connection pool does
+    when it retries a request on a fresh connection) with other attribute values, which are then changed to the final ones.
+    Nothing of it may show in the measured writeTo."""
+    if pre.get("m") is not None:
+        r.method = unhx(pre["m"])
+    if pre.get("u") is not None:
+        r.uri = unhx(pre["u"])
+    for _ in range(pre.get("n", 1)):
+        if pre.get("b") is not None:
+            n = pre["b"] if pre["b"] != "u" else 3
+            r.bodyProducer = ScriptedProducer(UNKNOWN_LENGTH if pre["b"] == "u" else n, [W(b"x" * n), ["ok"], ["ret"]])
+        try:
+            r.writeTo(_transport(c.get("t", "s")))
+        except (ValueError, BadHeaders):
+            pass
+    # now the final attribute values
+    r.method = unhx(c["m"])
+    r.uri = unhx(c["u"])
+    if pre.get("inplace"):
+        for name, _ in list(r.headers.getAllRawHeaders()):
+            r.headers.removeHeader(name)
+        _apply_headers(r.headers, c["h"])
+    else:
+        r.headers = _headers(c)
+    r.persistent = bool(c["p"])
+
+
 def run_impl(c):
-    t = StringTransport()
+    t = _transport(c.get("t", "s"))
     prod = None if c["b"] is None else ScriptedProducer(UNKNOWN_LENGTH if c["b"] == "u" else c["b"], c["s"])
     res = []
+    pre = c.get("pre")
     try:
-        r = Request(unhx(c["m"]), unhx(c["u"]), _headers(c), prod, persistent=c["p"])
+        if pre is None:
+            r = _make(c, unhx(c["m"]), unhx(c["u"]), _headers(c), prod, c["p"])
+        else:
+            r = _make(c, unhx(c["m"]), unhx(c["u"]), _apply_headers(Headers(), pre["h"]), None, pre.get("p"))
+            _prelude(c, r, pre)
+            r.bodyProducer = prod
         if c["m2"] is not None:
             r.method = unhx(c["m2"])
         if c["u2"] is not None:
@@ -365,10 +470,41 @@ def W(b):
     return ["w", hx(b)]
 
 
-def case(m=b"GET", u=b"/", m2=None, u2=None, h=None, p=False, b=None, s=()):
-    return {"m": hx(m), "u": hx(u), "m2": None if m2 is None else hx(m2), "u2": None if u2 is None else hx(u2),
-            "h": [[how, hx(n), [hx(v) for v in vs]] for how, n, vs in (h if h is not None else [("set", b"host", [b"example.com"])])],
-            "p": p, "b": b, "s": [list(e) for e in s]}
+def _hspec(h):
+    return [[how, hx(n), [hx(v) for v in vs]] for how, n, vs in h]
+
+
+def case(m=b"GET", u=b"/", m2=None, u2=None, h=None, p=False, b=None, s=(), t="s", ctor="init", pre=None):
+    """p: True / False / None (= the `persistent` argument left out); t: transport kind ("s" StringTransport, "fd" the
+    real abstract.FileDescriptor over a sink); ctor: "init" Request(...) / "construct" Request._construct(...);
+    pre: an earlier life of the same Request object (see _prelude) or None."""
+    c = {"m": hx(m), "u": hx(u), "m2": None if m2 is None else hx(m2), "u2": None if u2 is None else hx(u2),
+         "h": _hspec(h if h is not None else [("set", b"host", [b"example.com"])]),
+         "p": p, "b": b, "s": [list(e) for e in s]}
+    if t != "s":
+        c["t"] = t
+    if ctor != "init":
+        c["ctor"] = ctor
+    if pre is not None:
+        c["pre"] = pre
+    return c
+
+
+def prelude(h=None, p=False, m=None, u=None, n=1, b=None, inplace=False):
+    return {"h": _hspec(h if h is not None else [("set", b"host", [b"first.example"])]), "p": p,
+            "m": None if m is None else hx(m), "u": None if u is None else hx(u), "n": n, "b": b, "inplace": inplace}
+
+
+def _ramp(n, start=0):
+    """n bytes in which every position is recognisable (a dropped, repeated or moved piece changes the content)"""
+    out, i = [], start
+    size = 0
+    while size < n:
+        piece = b"%x." % i
+        out.append(piece)
+        size += len(piece)
+        i += 1
+    return b"".join(out)[:n]
 
 
 def corpus():
@@ -392,37 +528,161 @@ def corpus():
         case(h=[]), case(h=[("set", b"host", [b"a", b"b"])]), case(h=[("set", b"HOST", [])]),
         case(h=H + [("set", b"x", [b"a\r\nInjected: 1", b"\x00", b" pad ", b"\x80\xff"])]),
         case(b"POST", h=H + [("set", b"content-length", [b"7"])], b=3, s=[W(b"abc"), ["ret"], ["ok"]]),
+        # --- classes added by the white-box mutation audit (harness/mutants/C24)
+        # a delimiter inside a method (a `+-.` range in a character class lets `,` through)
+        case(b"G,T"), case(b"GET,"), case(m2=b",GET"),
+        # an invalid byte in a target of absolute / authority / asterisk form
+        case(u=b"http://example.com/a b"), case(u=b"https://example.com/\r\nX: y"), case(u2=b"http://example.com/\x00"),
+        case(u=b"example.com:443\n"), case(u=b"*\t"),
+        # the same Request object written before (a retry on a fresh connection), attributes changed in between
+        case(u=b"/second", pre=prelude(u=b"/first")),
+        case(u=b"/second", h=H + [("add", b"authorization", [b"x"])], pre=prelude(h=H, inplace=True)),
+        case(u=b"/ok", u2=b"/bad uri", pre=prelude()),
+        case(m=b"POST", p=True, pre=prelude(m=b"GET", p=False, n=2)),
+        case(b"PUT", b"/x", b=3, s=[W(b"abc"), ["ret"], ["ok"]], pre=prelude(b=3)),
+        case(b"PUT", b"/x", b="u", s=[W(b"abc"), ["ret"], ["ok"]], pre=prelude(b="u", h=[])),
+        # a transport with the real FileDescriptor.writeSequence (walks its argument twice)
+        case(t="fd"), case(b"POST", t="fd", b="u", s=[W(b"abc"), ["ret"], W(b""), W(b"de"), ["ok"]]),
+        case(b"POST", t="fd", b=70000, s=[W(_ramp(70000)), ["ret"], ["ok"]]),
+        # write sizes around powers of two above 4096
+        case(b"POST", b="u", s=[W(_ramp(16385)), ["ret"], ["ok"]]), case(b"POST", b="u", s=[["ret"], W(_ramp(65536)), W(_ramp(5, 9)), ["ok"]]),
+        case(b"POST", b="u", s=[W(_ramp(32769)), W(_ramp(8192, 77)), ["ok"], ["ret"]]),
+        # registered field names with a meaning for connections / messages
+        case(b"POST", h=H + [("set", b"expect", [b"100-continue"])], b=3, s=[W(b"abc"), ["ret"], ["ok"]]),
+        case(h=H + [("set", b"upgrade", [b"h2c"]), ("set", b"connection", [b"upgrade"]), ("set", b"te", [b"trailers"]),
+                    ("set", b"trailer", [b"x-a"]), ("set", b"keep-alive", [b"timeout=5"]), ("set", b"proxy-connection", [b"keep-alive"])]),
+        # registered methods with special semantics, with and without a body
+        case(b"TRACE", b=3, s=[W(b"abc"), ["ret"], ["ok"]]), case(b"CONNECT", b"example.com:443", b="u", s=[W(b"abc"), ["ret"], ["ok"]]),
+        case(b"HEAD", b=0, s=[["ok"], ["ret"]]), case(b"post"), case(b"Put"), case(b"PATCH"), case(b"CONNECT", b"example.com:443"),
+        # the `persistent` argument left out; the private constructor used by Agent
+        case(p=None), case(p=None, ctor="construct"), case(p=True, ctor="construct"), case(p=False, ctor="construct"),
+        # long method / target / field value
+        case(b"M" * 300, b"/" + b"a" * 8192, h=H + [("set", b"x-long", [b"v" * 8193, b"w" * 999])]),
+        case(u=b"/" + _ramp(8192)),
     ]
 
 
 METHODS_OK = [b"GET", b"POST", b"PUT", b"HEAD", b"DELETE", b"OPTIONS", b"PATCH", b"M-SEARCH", b"get", b"!#$%&'*+-.^_`|~", b"A1", b"x"]
+# the IANA method registry (every method a special case could be keyed on) and case variants of the common ones
+METHODS_REG = [b"GET", b"HEAD", b"POST", b"PUT", b"DELETE", b"CONNECT", b"OPTIONS", b"TRACE", b"PATCH", b"ACL", b"BASELINE-CONTROL",
+               b"BIND", b"CHECKIN", b"CHECKOUT", b"COPY", b"LABEL", b"LINK", b"LOCK", b"MERGE", b"MKACTIVITY", b"MKCALENDAR", b"MKCOL",
+               b"MKREDIRECTREF", b"MKWORKSPACE", b"MOVE", b"ORDERPATCH", b"PRI", b"PROPFIND", b"PROPPATCH", b"QUERY", b"REBIND",
+               b"REPORT", b"SEARCH", b"UNBIND", b"UNCHECKOUT", b"UNLINK", b"UNLOCK", b"UPDATE", b"UPDATEREDIRECTREF",
+               b"VERSION-CONTROL", b"PURGE", b"NOTIFY", b"SUBSCRIBE", b"UNSUBSCRIBE",
+               b"post", b"put", b"Post", b"Put", b"pOST", b"PUt", b"head", b"trace", b"Trace", b"connect", b"patch", b"POSTS", b"PUTS", b"XPUT"]
 METHODS_BAD = [b"", b"GET ", b" GET", b"G ET", b"GET\r\n", b"GET\r\nX: y", b"G\nET", b"G\tET", b"GET\x00", b"GET\x7f", b"G\x80T", b"\xff"] + \
     [b"G" + bytes([d]) + b"T" for d in b'"(),/:;<=>?@[\\]{}']
 URIS_OK = [b"/", b"/a/b?c=d&e=f", b"*", b"http://example.com/x", b"/%20%0d%0a", b"/~!@#$%^&*()_+{}|:\"<>?`-=[]\\;',.", b"x", b"/" + b"a" * 300]
+# every form of request-target (origin, absolute, authority, asterisk) and odd but valid VCHAR strings
+URIS_FORMS = [b"https://example.com/", b"http://user:pw@example.com:8080/a/b;c?d=e#f", b"HTTP://EXAMPLE.COM", b"http://[::1]:80/",
+              b"ftp://example.com/x", b"example.com:443", b"[::1]:8443", b"//example.com/x", b"/?", b"?", b"#", b"%", b"/a#frag",
+              b"/../..//./x", b"/%00%ff", b"://", b"/a://b", b"HTTP/1.1", b"/x?HTTP/1.1", b"!", b"~"]
 URIS_BAD = [b"", b"/a b", b"/ HTTP/1.1\r\nHost: evil\r\n\r\n", b"/a\r\n", b"/a\nb", b"/a\rb", b"/\t", b"/\x00", b"/\x7f", b"/\x80", b"/\xff", b" /", b"/ "]
 # every byte that is not allowed, at the start, in the middle and at the END of an otherwise valid method / target
 # (a trailing LF alone is what a `$`-anchored regex lets through: seeded change C24-1)
 _TCHAR = set(b"!#$%&'*+-.^_`|~0123456789ABCDEFGHIJKLMNOPQRSTUVWXYZabcdefghijklmnopqrstuvwxyz")
-METHODS_BAD += [w for d in range(256) if d not in _TCHAR
-                for w in (b"GET" + bytes([d]), bytes([d]) + b"GET", b"GE" + bytes([d]) + b"T")]
-URIS_BAD += [w for d in range(256) if not 0x21 <= d <= 0x7e
-             for w in (b"/path" + bytes([d]), bytes([d]) + b"/path", b"/pa" + bytes([d]) + b"th")]
+_TCHARS = bytes(sorted(_TCHAR))
+_NOT_TCHAR = [d for d in range(256) if d not in _TCHAR]
+_NOT_VCHAR = [d for d in range(256) if not 0x21 <= d <= 0x7e]
+METHODS_BAD += [w for d in _NOT_TCHAR for w in (b"GET" + bytes([d]), bytes([d]) + b"GET", b"GE" + bytes([d]) + b"T")]
+URIS_BAD += [w for d in _NOT_VCHAR for w in (b"/path" + bytes([d]), bytes([d]) + b"/path", b"/pa" + bytes([d]) + b"th")]
 NAMES = [b"x-a", b"X-A", b"accept", b"Accept-Encoding", b"te", b"etag", b"Content-Type", b"cOOkie", b"connection", b"user-agent", b"x.y_z!", b"a"]
+# registered field names, above all those with a meaning for the connection or the message framing that a writer might
+# treat specially (hop-by-hop, expectations, conditionals, content description)
+NAMES_REG = [b"Expect", b"TE", b"Trailer", b"Upgrade", b"Keep-Alive", b"Proxy-Connection", b"Proxy-Authorization", b"Proxy-Authenticate",
+             b"Authorization", b"Cookie", b"Cookie2", b"Range", b"If-Match", b"If-None-Match", b"If-Modified-Since", b"If-Unmodified-Since",
+             b"If-Range", b"Content-Encoding", b"Content-Type", b"Content-MD5", b"Content-Language", b"Content-Location", b"Content-Range",
+             b"Content-Disposition", b"DNT", b"Date", b"Via", b"Warning", b"Pragma", b"Cache-Control", b"Origin", b"Referer", b"Max-Forwards",
+             b"From", b"Accept", b"Accept-Charset", b"Accept-Language", b"Accept-Ranges", b"X-Forwarded-For", b"Forwarded", b"HTTP2-Settings",
+             b"Sec-WebSocket-Key", b"Sec-WebSocket-Version", b"X-XSS-Protection", b"WWW-Authenticate", b"Age", b"Server", b"Location",
+             b"Set-Cookie", b"Link", b"Priority", b"Early-Data", b"Idempotency-Key", b"MIME-Version", b"Close", b"Allow", b"Vary",
+             b"X-Content-Length", b"Content-Lengthx", b"Hostname", b"X-Host", b"Transfer-Encodings"]
 VALS_OK = [b"1", b"a b", b"a\tb", b"", b"\x80\xff", b"text/html; q=0.5", b"x" * 300, b"close", b"keep-alive", b"a:b", b"\"q\"", b"0"]
+VALS_REG = [b"100-continue", b"trailers", b"h2c", b"websocket", b"upgrade", b"Upgrade, HTTP2-Settings", b"TE, close", b"chunked", b"gzip, chunked",
+            b"identity", b"timeout=5, max=100", b"bytes=0-499", b"Basic QWxhZGRpbjpvcGVuIHNlc2FtZQ==", b"a=b; c=d", b"*", b"W/\"xyzzy\"",
+            b"Sun, 06 Nov 1994 08:49:37 GMT", b"HTTP/1.1", b"GET / HTTP/1.1", b"x, x", b",", b"x" * 998, b"x" * 999]
 VALS_BAD = [b" lead", b"trail ", b"\ttab\t", b"a\r\nX: y", b"a\nb", b"a\rb", b"\r\n", b"a\r\n", b"a\x00b", b"a\x0bb", b"a\x0cb", b"a\x7fb", b"\x01", b" "]
 SIZES = [0, 1, 2, 9, 10, 15, 16, 17, 255, 256, 4095, 4096]
+# 2^k - 1, 2^k, 2^k + 1 above 4096: where a writer that splits, coalesces or bounds what it is given has its boundaries
+BIG_SIZES = [n + d for n in (8192, 16384, 32768, 65536, 131072) for d in (-1, 0, 1)]
+LENGTHS = [1, 2, 3, 7, 8, 16, 17, 32, 64, 255, 256, 1023, 1024]
+LONG_LENGTHS = [4095, 4096, 4097, 8191, 8192, 8193]      # rare: the Lean reference parser is quadratic in the length of a line
 PAYLOAD = [b"\r\n", b"0\r\n\r\n", b"\x00", b"\xff", b"a", b"GET / HTTP/1.1\r\n\r\n"]
+_RESERVED = (b"host",) + FRAMING
 
 
 def _data(rng, n):
     if n == 0:
         return b""
+    if n > 4096:
+        return _ramp(n, rng.randrange(1000))
     if rng.random() < 0.3:
         s = rng.choice(PAYLOAD)
         return (s * (n // len(s) + 1))[:n]
     if n > 64:
         return bytes([rng.randrange(256)]) * n
     return bytes(rng.randrange(256) for _ in range(n))
+
+
+def _rand_token(rng, n):
+    return bytes(rng.choice(_TCHARS) for _ in range(n))
+
+
+def _rand_vchars(rng, n):
+    if n > 4096:
+        return b"/" + _ramp(n - 1, rng.randrange(1000))
+    return bytes(rng.randrange(0x21, 0x7f) for _ in range(n))
+
+
+def _inject(rng, base, bad):
+    """an otherwise valid value with ONE disallowed byte (or a CRLF injection) somewhere: start, inside, end"""
+    r = rng.random()
+    d = (bytes([rng.choice(b" \t\r\n\x00\x7f\x80\xff\x0b\x0c\x85\xa0")]) if r < 0.6 else bytes([rng.choice(bad)]) if r < 0.9
+         else rng.choice([b"\r\n", b"\r\nX: y", b" HTTP/1.1\r\n\r\n", b"\n\n"]))
+    k = rng.choice([0, len(base), rng.randrange(len(base) + 1)])
+    return base[:k] + d + base[k:]
+
+
+def _gen_method(rng, ok):
+    r = rng.random()
+    base = (rng.choice(METHODS_OK) if r < 0.55 else rng.choice(METHODS_REG) if r < 0.88 else
+            _rand_token(rng, rng.choice(LENGTHS[:11])))      # up to 256 bytes
+    if ok:
+        return base
+    return rng.choice(METHODS_BAD) if rng.random() < 0.5 else _inject(rng, base, _NOT_TCHAR)
+
+
+def _gen_uri(rng, ok):
+    r = rng.random()
+    base = (rng.choice(URIS_OK) if r < 0.5 else rng.choice(URIS_FORMS) if r < 0.8 else
+            _rand_vchars(rng, rng.choice(LENGTHS)) if r < 0.992 else _rand_vchars(rng, rng.choice(LONG_LENGTHS)))
+    if ok:
+        return base
+    return rng.choice(URIS_BAD) if rng.random() < 0.4 else _inject(rng, base, _NOT_VCHAR)
+
+
+def _gen_name(rng):
+    r = rng.random()
+    if r < 0.45:
+        return rng.choice(NAMES)
+    if r < 0.85:
+        n = rng.choice(NAMES_REG)
+        return rng.choice([n, n.lower(), n.upper()])
+    while True:
+        n = _rand_token(rng, rng.choice([1, 2, 3, 5, 8, 13, 40]))
+        if n.lower() not in _RESERVED:
+            return n
+
+
+def _gen_value(rng):
+    r = rng.random()
+    if r < 0.5:
+        return rng.choice(VALS_OK)
+    if r < 0.82:
+        return rng.choice(VALS_REG)
+    if r < 0.83:
+        return b"v" * rng.choice([1000, 4096, 8191, 8192, 8193])
+    return rng.choice(VALS_BAD)
 
 
 def _gen_headers(rng):
@@ -438,10 +698,12 @@ def _gen_headers(rng):
     else:
         h = [("add", b"host", [b"a"]), ("add", b"HoSt", [b"b"])]
     for _ in range(rng.choice([0, 0, 1, 1, 2, 3, 5])):
-        name = rng.choice(NAMES)
+        name = _gen_name(rng)
         if rng.random() < 0.04:
             name = rng.choice([b"content-length", b"Transfer-Encoding", b"CONTENT-LENGTH"])
-        vals = [rng.choice(VALS_OK) if rng.random() < 0.85 else rng.choice(VALS_BAD) for _ in range(rng.choice([1, 1, 1, 2, 3, 0]))]
+        vals = [_gen_value(rng) for _ in range(rng.choice([1, 1, 1, 2, 3, 0]))]
+        if len(vals) > 1 and rng.random() < 0.3:
+            vals[-1] = vals[0]          # the same value twice under one name
         h.append((rng.choice(["set", "set", "add"]), name, vals))
     if rng.random() < 0.3:
         rng.shuffle(h)
@@ -449,9 +711,22 @@ def _gen_headers(rng):
 
 
 def _gen_script(rng, body, tier):
-    sizes = SIZES + ([65536] if tier == "thorough" and rng.random() < 0.1 else [])
     n = rng.choice([0, 1, 1, 2, 3, 4, 6])
-    writes = [_data(rng, rng.choice(sizes) if rng.random() < 0.7 else rng.randrange(0, 40)) for _ in range(n)]
+    many = rng.random() < 0.03
+    if many:                        # long runs of small writes
+        n = rng.choice([12, 33, 100])
+
+    def size():
+        q = rng.random()
+        if many:
+            return rng.randrange(0, 20)
+        if q < (0.006 if tier == "quick" else 0.002):
+            return rng.choice(BIG_SIZES[:3] * 4 + BIG_SIZES[3:6] * 4 + BIG_SIZES[6:9] * 3 + BIG_SIZES[9:12] * 2 + BIG_SIZES[12:])
+        if q < (0.008 if tier == "quick" else 0.003):
+            return int(4097 * (32 ** rng.random()))     # log-uniform 4 KiB .. 128 KiB
+        return rng.choice(SIZES) if q < 0.72 else rng.randrange(0, 40)
+
+    writes = [_data(rng, size()) for _ in range(n)]
     r = rng.random()
     if r < 0.62:
         ev = [W(w) for w in writes] + [["ok"]]
@@ -472,22 +747,82 @@ def _gen_script(rng, body, tier):
     return blen, ev
 
 
+def _gen_prelude(rng):
+    r = rng.random()
+    return prelude(h=_gen_headers(rng) if rng.random() < 0.5 else None, p=rng.choice([True, False, None]),
+                   m=None if rng.random() < 0.6 else _gen_method(rng, rng.random() < 0.7),
+                   u=None if rng.random() < 0.4 else _gen_uri(rng, rng.random() < 0.7),
+                   n=rng.choice([1, 1, 2]), b=None if r < 0.7 else "u" if r < 0.85 else rng.choice([0, 3, 17]),
+                   inplace=rng.random() < 0.5)
+
+
 def _gen(rng, tier):
-    m = rng.choice(METHODS_OK) if rng.random() < 0.9 else rng.choice(METHODS_BAD)
-    u = rng.choice(URIS_OK) if rng.random() < 0.9 else rng.choice(URIS_BAD)
+    m = _gen_method(rng, rng.random() < 0.9)
+    u = _gen_uri(rng, rng.random() < 0.9)
     m2 = u2 = None
     if rng.random() < 0.12:
-        m2 = rng.choice(METHODS_OK) if rng.random() < 0.4 else rng.choice(METHODS_BAD)
+        m2 = _gen_method(rng, rng.random() < 0.4)
     if rng.random() < 0.12:
-        u2 = rng.choice(URIS_OK) if rng.random() < 0.4 else rng.choice(URIS_BAD)
+        u2 = _gen_uri(rng, rng.random() < 0.4)
     kind = rng.choice([None, "u", "u", "k", "k"])
     b, s = None, []
     if kind is not None:
         b, s = _gen_script(rng, kind, tier)
-    return case(m, u, m2, u2, _gen_headers(rng), rng.random() < 0.5, b, s)
+    pre = _gen_prelude(rng) if rng.random() < 0.2 else None
+    p = rng.choice([True, True, True, False, False, False, None]) if pre is None else rng.random() < 0.5
+    c = case(m, u, m2, u2, _gen_headers(rng), p, b, s, t="fd" if rng.random() < 0.35 else "s",
+             ctor="construct" if rng.random() < 0.4 else "init", pre=pre)
+    if tier == "quick" and sum(len(e[1]) for e in s if e[0] == "w") > 2 * 70000:
+        c["oo"] = 1
+    return c
+
+
+def _sweep(rng):
+    """Deterministic part of the quick tier: EVERY byte value that is not allowed, at the start, inside and at the end of
+    an otherwise valid method and target (the bases rotate through all the lists, so absolute-form targets and uncommon
+    methods get their turn) - once given to the constructor and once assigned to .method / .uri afterwards."""
+    mbases = METHODS_OK + METHODS_REG
+    ubases = URIS_OK[:-1] + URIS_FORMS
+    i = 0
+    for later in (False, True):
+        for d in _NOT_TCHAR:
+            for pos in (0, 1, 2):
+                base = mbases[i % len(mbases)]
+                i += 1
+                k = 0 if pos == 0 else len(base) if pos == 2 else rng.randrange(len(base) + 1)
+                w = base[:k] + bytes([d]) + base[k:]
+                yield case(m=b"GET" if later else w, m2=w if later else None, p=bool(i & 1), ctor="construct" if i & 2 else "init")
+        for d in _NOT_VCHAR:
+            for pos in (0, 1, 2):
+                base = ubases[i % len(ubases)]
+                i += 1
+                k = 0 if pos == 0 else len(base) if pos == 2 else rng.randrange(len(base) + 1)
+                w = base[:k] + bytes([d]) + base[k:]
+                yield case(u=b"/" if later else w, u2=w if later else None, p=bool(i & 1), t="fd" if i & 2 else "s")
+
+
+def _sweep_sizes(rng, tier):
+    """Deterministic: one body of unknown and one of known length for every size 2^k - 1, 2^k, 2^k + 1 (k = 13..17), as a
+    single write followed by a short one, every position recognisable.  In the quick tier those above 32 KiB + 1 are judged
+    by the oracle only and 128 KiB is left to the thorough tier (cost of the model run)."""
+    H = [("set", b"host", [b"example.com"])]
+    for i, n in enumerate(BIG_SIZES):
+        if tier == "quick" and n > 65537:
+            continue
+        for kind in ("u", "k"):
+            big, tail = _ramp(n, rng.randrange(1000)), _ramp(rng.choice([1, 5, 17]), 7)
+            ev = [W(big), W(tail), ["ok"]]
+            ev.insert(rng.randrange(len(ev) + 1), ["ret"])
+            c = case(rng.choice([b"POST", b"PUT", b"PATCH"]), b"/upload", h=H, p=bool(i & 1), b="u" if kind == "u" else n + len(tail), s=ev,
+                     t="fd" if rng.random() < 0.5 else "s")
+            if tier == "quick" and n > 32769:
+                c["oo"] = 1
+            yield c
 
 
 def generate(rng, tier):
+    yield from _sweep(rng)
+    yield from _sweep_sizes(rng, tier)
     n = 2500 if tier == "quick" else 60000
     for _ in range(n):
         yield _gen(rng, tier)
@@ -509,8 +844,15 @@ def tag(c, out):
         parts.append("sync" if fire and fire[0] < names.index("ret") else "async" if fire else "nofire")
         lens = [len(unhx(e[1])) for e in c["s"] if e[0] == "w"]
         parts.append("sz=" + ("e" if 0 in lens else "") + ("s" if any(0 < n < 16 for n in lens) else "")
-                     + ("m" if any(16 <= n < 4096 for n in lens) else "") + ("l" if any(n >= 4096 for n in lens) else ""))
-    parts.append("p" if c["p"] else "np")
+                     + ("m" if any(16 <= n < 4096 for n in lens) else "") + ("l" if any(4096 <= n < 8191 for n in lens) else "")
+                     + ("L" if any(n >= 8191 for n in lens) else "") + ("+" if len(lens) > 6 else ""))
+    parts.append("p" if c["p"] else "np" if c["p"] is not None else "p-default")
+    if c.get("t", "s") != "s":
+        parts.append("t=" + c["t"])
+    if c.get("ctor", "init") != "init":
+        parts.append("construct")
+    if c.get("pre") is not None:
+        parts.append("rewritten")
     parts.append("host1" if info["host1"] else "hostX")
     parts.append("vals" if info["values_ok"] else "badvals")
     if info["framing"]:
@@ -523,6 +865,18 @@ def tag(c, out):
 
 def shrink(c):
     s = c["s"]
+    if c.get("pre") is not None:
+        yield {k: v for k, v in c.items() if k != "pre"}
+        pre = c["pre"]
+        for k, v in (("n", 1), ("b", None), ("m", None), ("u", None), ("inplace", False)):
+            if pre.get(k) != v:
+                yield dict(c, pre=dict(pre, **{k: v}))
+    if c.get("t", "s") != "s":
+        yield {k: v for k, v in c.items() if k != "t"}
+    if c.get("ctor", "init") != "init":
+        yield {k: v for k, v in c.items() if k != "ctor"}
+    if c["p"] is None:
+        yield dict(c, p=False)
     for i, e in enumerate(s):
         if e[0] != "ret":
             yield dict(c, s=s[:i] + s[i + 1:])
